@@ -56,7 +56,7 @@ Manly      |lam| <= EPS, or |lam| >= 1e-3 with |lam x/xmax| <= 10, Sx = xmax; y:
 """
 
 ERRMAP = [("nu is nan", "nuUnset"), ("lam is nan", "lamUnset"), ("xmax is nan", "xmaxUnset"),
-          ("x < 0", "negative"), ("sum(x) >= 1", "sumGe1")]
+          ("x < 0", "negative"), ("sum(x) >= 1", "sumGe1"), ("Expected ndim", "ndimGt2")]
 
 STATEFUL = ("BoxCox1lam", "BoxCox1nu", "BoxCox2sym")
 NOCENS = ("YeoJohnson", "Softmax")   # forward(<python float>) raises inside numpy for these (atleast_1d results)
@@ -228,6 +228,50 @@ class Obj:
             setattr(self.t, k, v)
             self.requested[k] = v
 
+    def setp_via(self, how, **kw):
+        """the other public ways of (re)assigning parameters / constants: `t[name] = v`, `t.params[name] = v`,
+        whole-vector assignment `t.params.values = [...]` / `t.constants.values = [...]`"""
+        t = self.t
+        if how == "attr":
+            return self.setp(**kw)
+        if how == "item":
+            for k, v in kw.items():
+                t[k] = v
+                self.requested[k] = v
+            return
+        if how == "vector_item":
+            for k, v in kw.items():
+                (t.params if k in t.params.names else t.constants)[k] = v
+                self.requested[k] = v
+            return
+        if how == "values":
+            for vec in (t.params, t.constants):
+                names = list(vec.names)
+                if any(k in names for k in kw):
+                    cur = [float(x) for x in vec.values]
+                    for k, v in kw.items():
+                        if k in names:
+                            cur[names.index(k)] = v
+                            self.requested[k] = v
+                    vec.values = cur
+            return
+        raise KeyError(how)
+
+    def reset(self):
+        """`Transform.reset()`: parameters back to their defaults (constants untouched)"""
+        self.t.reset()
+        for n, v in zip(self.t.params.names, self.t.params.values):
+            self.requested[n] = float(v)
+
+    @classmethod
+    def wrap(cls_, other, t):
+        """an `Obj` around an existing transform object `t` that is a copy of `other.t`"""
+        o = cls_.__new__(cls_)
+        o.cls, o.ctor, o.via_get, o.requested, o.t, o.np = other.cls, dict(other.ctor), other.via_get, dict(other.requested), t, other.np
+        if other.cls in STATEFUL:
+            o.bc = [float(t.BC.params.values[0]), float(t.BC.params.values[1])]
+        return o
+
     def P(self):
         """actual (clipped) values held by the object"""
         t = self.t
@@ -269,10 +313,11 @@ class Obj:
             return [p["lam"], p["xmax"]]
         raise KeyError(c)
 
-    def call(self, op, arr, censor=None):
-        """-> ('ok', flat list of floats) | ('err', name)"""
+    def call(self, op, arr, censor=None, raw=None):
+        """-> ('ok', flat list of floats) | ('err', name). `raw`: an existing float64 ndarray to pass as the argument
+        itself (no copy), for histories that edit arrays in place between calls"""
         np = self.np
-        a = np.array(arr, dtype=np.float64)
+        a = np.array(arr, dtype=np.float64) if raw is None else raw
         try:
             with np.errstate(all="ignore"):
                 if op == "fwd":
@@ -717,12 +762,13 @@ def body(ctx):
     from hydrodiy.stat import transform as T
     rng = ctx.rng
     reqs, checks = [], []      # checks[i] = (impl status, impl payload, case dict, expected model state or None)
-    stats = {"unconstrained": 0, "elements": 0, "outside_domain_not_compared": 0, "max_diff_over_bound": 0.0}
+    stats = {"unconstrained": 0, "elements": 0, "outside_domain_not_compared": 0, "max_diff_over_bound": 0.0,
+             "clones": 0, "clone_unavailable": 0}
 
-    def submit(o, op, arr, censor=None, note=""):
+    def submit(o, op, arr, censor=None, note="", raw=None):
         """run one call on the real object, queue the same call for the model; returns the impl result"""
         mp = o.mparams()
-        status, payload = o.call(op, arr, censor)
+        status, payload = o.call(op, arr, censor, raw=raw)
         line = f"{op} {o.cls} {C.flist(mp)} {C.flist(arr)}" + (f" {C.f2h(censor)}" if op == "cens" else "")
         o.after_call(status)
         case = {"class": o.cls, "ctor": o.ctor, "params": o.P(), "op": op, "inputs": [float(v) for v in arr],
@@ -733,7 +779,8 @@ def body(ctx):
                         {"class": o.cls, "ctor": dict(o.ctor), "requested": dict(o.requested), "actual": o.P(),
                          "via_get_transform": o.via_get, "op": op, "error": payload})
         reqs.append(line)
-        checks.append((status, payload, case, list(o.bc) if o.cls in STATEFUL else None))
+        snap = payload.copy() if hasattr(payload, "copy") and status == "ok" else payload   # callers may edit the result
+        checks.append((status, snap, case, list(o.bc) if o.cls in STATEFUL else None))
         return status, payload
 
     def judge(cls, P, direction, a, b_, back, what_in):
@@ -775,9 +822,9 @@ def body(ctx):
                         {"class": cls, "ctor": ctor, "params": params, "via_get_transform": via_get})
             return None
 
-    def safe_setp(o, **kw):
+    def safe_setp(o, how="attr", **kw):
         try:
-            o.setp(**kw)
+            o.setp_via(how, **kw)
             return True
         except Exception as e:  # noqa
             ctx.finding(f"{o.cls}/setattr/raises", "assigning an admissible parameter value raises "
@@ -807,9 +854,10 @@ def body(ctx):
                     judge(o.cls, P, "y", a, m_, float(bk), "y")
         return st3
 
-    def xdir(o, P, xs, note):
-        """forward on domain-side inputs (correspondence) + backward(forward(x)) oracle; returns the forward values"""
-        st, y = submit(o, "fwd", xs, note=note)
+    def xdir(o, P, xs, note, raw=None):
+        """forward on domain-side inputs (correspondence) + backward(forward(x)) oracle; returns the forward values.
+        `xs` are the INTENDED values; `raw` (optional) the live array object holding them"""
+        st, y = submit(o, "fwd", xs, note=note, raw=raw)
         if st != "ok":
             return st, None
         yl = [float(v) for v in y]
@@ -855,19 +903,117 @@ def body(ctx):
         newp = rng.choice(cand)
         keys = [k for k in newp if rng.random() < 0.6] or [rng.choice(list(newp))]
         kw = {k: newp[k] for k in keys}
-        safe_setp(o, **kw)
+        safe_setp(o, rng.choice(["attr", "attr", "item", "vector_item", "values"]), **kw)
         if cls == "BoxCox2sym":
             p = o.P()
             if p["nu"] < 0 or (p["nu"] == 0 and not p["lam"] > EPS):
                 safe_setp(o, nu=0.3)
+
+    def sym_guard(o):
+        if o.cls == "BoxCox2sym":
+            p = o.P()
+            if p["nu"] < 0 or (p["nu"] == 0 and not p["lam"] > EPS):
+                safe_setp(o, nu=0.3)
+
+    def same_len(xs, n):
+        xs = list(xs)[:n]
+        while len(xs) < n:
+            xs.append(xs[len(xs) % max(1, len(xs))] if xs else 0.5)
+        return xs
+
+    def history(o, nin=12):
+        """short history on ONE object and ONE pair of array objects: call -> edit the returned array in place -> call
+        again -> overwrite the input array in place with other values of the same length -> call again -> backward on
+        the very array forward returned -> edit backward's result in place -> backward again. Every answer is compared
+        with the model on the CURRENT values (a cached / aliased result shows up as a disagreement and, through the
+        round-trip oracle, as a failing input)."""
+        cls = o.cls
+        P = o.P()
+        xs = same_len(x_inputs(cls, P, rng, nin), nin)
+        a = np.array(xs, dtype=np.float64)
+        st, r1 = submit(o, "fwd", xs, note="history: first call", raw=a)
+        if st != "ok":
+            return
+        try:
+            r1[...] = 123.456                      # caller scribbles over the returned array
+        except Exception:  # noqa  (read-only result: nothing to edit)
+            pass
+        st, r2 = xdir(o, P, xs, "history: after in-place edit of the returned array", raw=a)
+        xs2 = same_len(list(reversed(x_inputs(cls, P, rng, nin))), nin)
+        a[:] = xs2                                  # same array object, same length, other values
+        st, y = submit(o, "fwd", xs2, note="history: after in-place overwrite of the input array", raw=a)
+        if st != "ok":
+            return
+        yv = [float(v) for v in y]
+        yarr = y if isinstance(y, np.ndarray) else np.array(y, dtype=np.float64)
+        st, xb = submit(o, "bwd", yv, note="history: backward on the array forward returned", raw=yarr)
+        if st == "ok":
+            for a_, m_, bk in zip(xs2, yv, xb):
+                judge(cls, P, "x", a_, m_, float(bk), "x")
+            try:
+                xb[...] = -7.0
+            except Exception:  # noqa
+                pass
+            st, xb2 = submit(o, "bwd", yv, note="history: backward again after in-place edit of its result", raw=yarr)
+            if st == "ok":
+                for a_, m_, bk in zip(xs2, yv, xb2):
+                    judge(cls, P, "x", a_, m_, float(bk), "x")
+        # other arguments of the same length, then the first ones again
+        ys = same_len(y_extra(cls, P, rng, nin), nin)
+        ydir(o, P, ys, "history: other arguments")
+        submit(o, "jac", xs2, note="history: jacobian, same length as the earlier calls")
+        xdir(o, P, xs, "history: first arguments again")
+
+    def clones(o, nin=10):
+        """copy.deepcopy / pickle round trip of a live object, then diverging parameter changes on the original and on
+        the copy: each must answer from its own state. (Skipped, and counted, when the object cannot be copied.)"""
+        import copy
+        import pickle
+        made = []
+        for how in ("deepcopy", "pickle"):
+            try:
+                t2 = copy.deepcopy(o.t) if how == "deepcopy" else pickle.loads(pickle.dumps(o.t))
+                made.append((how, Obj.wrap(o, t2)))
+            except Exception:  # noqa
+                stats["clone_unavailable"] += 1
+        for how, c in made:
+            stats["clones"] += 1
+            exercise(c, nin, note=f"{how} copy")
+            mutate(o)
+            exercise(c, nin, note=f"{how} copy after the original changed")
+            mutate(c)
+            exercise(o, nin, note=f"original after its {how} copy changed")
+
+    def twins(o, o2, nin=10):
+        """two live objects of one class with different settings, calls interleaved: no state may leak between
+        instances (class-level / module-level caches, shared default Vectors)"""
+        Pa, Pb = o.P(), o2.P()
+        xa, xb_ = x_inputs(o.cls, Pa, rng, nin), x_inputs(o2.cls, Pb, rng, nin)
+        sa, ya = submit(o, "fwd", xa, note="twins: A forward")
+        sb, yb = submit(o2, "fwd", xb_, note="twins: B forward")
+        if sa == "ok":
+            ydir(o, Pa, [float(v) for v in ya if v == v] or [0.5], "twins: A backward after B was used")
+        if sb == "ok":
+            ydir(o2, Pb, [float(v) for v in yb if v == v] or [0.5], "twins: B backward after A was used")
+        mutate(o2)
+        sym_guard(o2)
+        xdir(o, Pa, xa, "twins: A again after B's parameters changed")
+        submit(o2, "jac", x_inputs(o2.cls, o2.P(), rng, nin), note="twins: B jacobian")
 
     def session(o, nsteps, nin=12):
         """a history on ONE reused object: set-params / forward / backward / jacobian / backward_censored in random
         order, every call compared with the model (whose inner state is whatever the previous calls left)"""
         cls = o.cls
         for k in range(nsteps):
-            if rng.random() < 0.45:
+            r = rng.random()
+            if r < 0.45:
                 mutate(o)
+            elif r < 0.52:
+                try:
+                    o.reset()
+                except Exception as e:  # noqa
+                    ctx.finding(f"{cls}/reset/raises", "Transform.reset() raises " + type(e).__name__, {"class": cls})
+                sym_guard(o)
             P = o.P()
             ops = ["fwd", "bwd", "bwd", "jac"] + ([] if cls in NOCENS else ["cens"])
             op = rng.choice(ops)
@@ -955,6 +1101,16 @@ def body(ctx):
                 session(fresh, 4)
         elif i % 3 == 0 and cls != "Identity":
             session(o, 4)
+        # array-object histories, copies, interleaved twins
+        history(o)
+        if i % 4 == 0:
+            clones(o)
+        if i % 3 == 1 and cls != "Identity":
+            alt = rng.choice([c for c in configs(cls, rng, 8) if all(v is not None for v in c[1].values())])
+            o2 = make(cls, alt[0], alt[1], via_get=False)
+            if o2 is not None:
+                sym_guard(o2)
+                twins(o, o2)
 
     for cls in scalar_classes:
         cfgs = configs(cls, rng, 1 if cls == "Identity" else ncfg)
@@ -981,16 +1137,16 @@ def body(ctx):
     # ---------------- Softmax (2-D): shapes 1 x n, n x 1, n x n, m x n (m != n), both directions, shapes checked
     sm = T.Softmax()
 
-    def sm_call(op, arr):
+    def sm_call(op, arr, shapes=None):
         """exception-safe call -> ('ok', ndarray of the expected shape) | ('err', name of a documented rejection) |
         ('exc', text) for any other exception | ('shape', text) for a result of unexpected shape/type"""
-        want = (arr.shape[0],) if op == "jac" else arr.shape
+        want = shapes if shapes is not None else [(arr.shape[0],) if op == "jac" else arr.shape]
         try:
             with np.errstate(all="ignore"):
                 r = sm.forward(arr) if op == "fwd" else sm.backward(arr) if op == "bwd" else sm.jacobian(arr)
         except ValueError as e:
             known = next((v for k, v in ERRMAP if k in str(e)), None)
-            if known is not None and op != "bwd":
+            if known is not None and (op != "bwd" or known == "ndimGt2"):
                 return "err", known
             return "exc", "ValueError:" + str(e)[:80]
         except Exception as e:  # noqa
@@ -999,8 +1155,8 @@ def body(ctx):
             r = np.asarray(r, dtype=np.float64)
         except Exception as e:  # noqa
             return "shape", "not an array of floats: " + type(e).__name__
-        if r.shape != want:
-            return "shape", f"result shape {r.shape}, expected {want}"
+        if r.shape not in want:
+            return "shape", f"result shape {r.shape}, expected {want[0]}"
         return "ok", r
 
     def sm_report(op, status, payload, rows, inside):
@@ -1011,10 +1167,10 @@ def body(ctx):
                         f"Softmax.{op} on a valid 2-D array of shape {len(rows)}x{len(rows[0])}: " + str(payload),
                         {"rows": rows, "shape": [len(rows), len(rows[0])], "problem": payload})
 
-    def sm_queue(op, status, payload, rows, kind):
-        reqs.append(f"{op} Softmax [] {C.fmat(rows)}")
+    def sm_queue(op, status, payload, rows, kind, nd="[]"):
+        reqs.append(f"{op} Softmax {nd} {C.fmat(rows)}")
         if status == "ok":
-            checks.append(("ok", payload, {"class": "Softmax", "op": op, "rows": rows, "kind": kind}, None))
+            checks.append(("ok", payload.copy(), {"class": "Softmax", "op": op, "rows": rows, "kind": kind}, None))
         else:
             checks.append(("err", payload if status == "err" else f"{status}:{payload}",
                            {"class": "Softmax", "op": op, "rows": rows, "kind": kind}, None))
@@ -1105,6 +1261,113 @@ def body(ctx):
                 ctx.finding("Softmax/roundtrip_y/rejected", "forward rejects backward(y) although sum exp(y) <= 1e6",
                             {"rows": yrows, "shape": [nrow, ncol], "error": yy})
 
+
+        # array-object history on a valid array: edit the result in place, call again; overwrite the input in place
+        # with another valid array of the same shape, call again, and take it back through backward
+        if valid and res["fwd"][0] == "ok" and it % 3 == 0:
+            res["fwd"][1][...] = 9.0
+            st2, y2 = sm_call("fwd", arr)
+            sm_report("fwd", st2, y2, rows, True)
+            sm_queue("fwd", st2, y2, rows, "history: after in-place edit of the returned array")
+            rows2 = [[v * rng.uniform(0.2, 1.0) for v in r] for r in rows]
+            arr[...] = rows2
+            st3, y3 = sm_call("fwd", arr)
+            sm_report("fwd", st3, y3, rows2, True)
+            sm_queue("fwd", st3, y3, rows2, "history: after in-place overwrite of the input array")
+            if st3 == "ok":
+                st4, x4 = sm_call("bwd", y3)
+                sm_report("bwd", st4, x4, rows2, all(fin(float(v)) for v in y3.ravel()))
+                if st4 == "ok":
+                    for r, br in zip(rows2, x4):
+                        for a, bk in zip(r, br):
+                            if a >= 1e-300 and not (fin(float(bk)) and abs(float(bk) - a) <= 1e-6 * a):
+                                ctx.finding("Softmax/roundtrip_x/row", "backward(forward(x)) differs from x by more than 1e-6 relative",
+                                            {"rows": rows2, "shape": [len(rows2), len(rows2[0])], "x": a, "back": float(bk),
+                                             "history": "input array overwritten in place between calls"})
+
+    # ---------------- Softmax: 1-D inputs (one row after np.atleast_2d) and inputs of more than 2 dimensions (rejected)
+    for it in range(ctx.scale(80, 800)):
+        n = rng.randint(1, 6)
+        raw = [rng.random() + 1e-6 for _ in range(n)]
+        tot = sum(raw)
+        target = rng.uniform(0.01, 0.98)
+        row = [v / tot * target for v in raw]
+        a1 = np.array(row, dtype=np.float64)
+        st, y = sm_call("fwd", a1, shapes=[(1, n), (n,)])
+        sm_report("fwd", st, y, [row], True)
+        sm_queue("fwd", st, y, [row], "1-D", nd="nd1")
+        stj, j = sm_call("jac", a1, shapes=[(1,), ()])
+        sm_report("jac", stj, j, [row], True)
+        sm_queue("jac", stj, j, [row], "1-D", nd="nd1")
+        if st == "ok":
+            yrow = [float(v) for v in np.asarray(y).ravel()]
+            stb, xb = sm_call("bwd", np.array(yrow), shapes=[(1, n), (n,)])
+            sm_report("bwd", stb, xb, [yrow], True)
+            sm_queue("bwd", stb, xb, [yrow], "1-D", nd="nd1")
+            if stb == "ok":
+                for a, bk in zip(row, np.asarray(xb).ravel()):
+                    if not (fin(float(bk)) and abs(float(bk) - a) <= 1e-6 * a):
+                        ctx.finding("Softmax/roundtrip_x/row", "backward(forward(x)) differs from x by more than 1e-6 relative",
+                                    {"rows": [row], "shape": [n], "x": a, "back": float(bk)})
+        if it % 4 == 0:
+            m = rng.randint(1, 3)
+            rows3 = [[v * rng.uniform(0.3, 1.0) for v in row] for _ in range(m)]
+            a3 = np.array(rows3, dtype=np.float64).reshape(rng.choice([(1, m, n), (m, 1, n)]))
+            for op in ("fwd", "bwd", "jac"):
+                st3, r3 = sm_call(op, a3, shapes=[a3.shape, (m, n), (m,), (1, m)])
+                sm_queue(op, st3, r3, rows3, "3-D", nd="nd3")
+
+
+    # ---------------- get_transform: name lookup and keyword routing (constructor argument / parameter / constant /
+    # ignored), observed by its effect on the instance and compared with the model's catalogue
+    import inspect
+    ROUTE_VALS = {"mininu": 0.5, "minilam": 0.25, "base": 7.0, "nu": 0.77, "lam": 0.37, "lower": 0.4, "logdelta": 0.3,
+                  "scale": 2.2, "loga": -2.2, "logb": 0.7, "xmax": 3.3, "foo": 1.0}
+
+    def snap(t):
+        f = lambda v: [C.f2h(x) for x in np.atleast_1d(np.asarray(v, dtype=float))]
+        other = [f(t.params.mins), f(t.params.maxs), f(t.constants.mins), f(t.constants.maxs),
+                 f(getattr(t, "mininu", NAN)), f(getattr(t, "basefactor", NAN))]
+        if hasattr(t, "BC"):
+            other += [f(t.BC.mininu), f(t.BC.params.mins)]
+        return f(t.params.values), f(t.constants.values), other
+
+    route_reqs, route_impl = [], []
+    route_reqs.append("catalogue")
+    route_impl.append(C.slist(T.__all__))
+    for bad in ("Foo", "boxcox2", ""):
+        route_reqs.append(f"lookup {bad}" if bad else "lookup _")
+        try:
+            T.get_transform(bad if bad else "_")
+            route_impl.append("ok")
+        except ValueError as e:
+            route_impl.append("err unknownName" if "Expected transform name" in str(e) else "err other")
+        except Exception as e:  # noqa
+            route_impl.append("err exc:" + type(e).__name__)
+    for cls in T.__all__:
+        try:
+            base = T.get_transform(cls)
+            ctor_args = [a for a in inspect.signature(getattr(T, cls)).parameters]
+            route_reqs.append(f"lookup {cls}")
+            route_impl.append(f"ok {C.slist(ctor_args)} {C.slist(base.params.names)} {C.slist(base.constants.names)}")
+            b0 = snap(base)
+            for key, val in ROUTE_VALS.items():
+                route_reqs.append(f"route {cls} {key}")
+                try:
+                    t = T.get_transform(cls, **{key: val})
+                    p1, c1, o1 = snap(t)
+                    got = "ctor" if o1 != b0[2] else "param" if p1 != b0[0] else "const" if c1 != b0[1] else "ignored"
+                except Exception as e:  # noqa
+                    got = "raises:" + type(e).__name__
+                route_impl.append(got)
+        except Exception as e:  # noqa
+            ctx.finding(f"get_transform/{cls}/raises", "get_transform(name) with a catalogue name raises " + type(e).__name__,
+                        {"class": cls})
+    for rq, im, rp in zip(route_reqs, route_impl, ctx.lean.ask(route_reqs)):
+        ctx.count(("route", rq), rp not in ("ignored",) and not rp.startswith("err"), "get_transform/" + rq.split()[0])
+        if im != rp:
+            ctx.disagree("get_transform: implementation and model differ (" + rq + ")", {"request": rq, "impl": im, "model": rp})
+
     # ---------------- correspondence
     replies = ctx.lean.ask(reqs)
     for req, (status, payload, case, bcexp), rep in zip(reqs, checks, replies):
@@ -1181,6 +1444,8 @@ def body(ctx):
     ctx.extra["rule"] = __doc__.split("Cases:")[1].strip()
     ctx.extra["oracle_regions"] = REGIONS.strip()
     ctx.extra["unconstrained_elements"] = stats["unconstrained"]
+    ctx.extra["object_copies_exercised"] = stats["clones"]
+    ctx.extra["object_copies_unavailable"] = stats["clone_unavailable"]   # copy.deepcopy / pickle raise (Vector; C12)
     ctx.extra["outside_domain_not_compared"] = stats["outside_domain_not_compared"]
     ctx.extra["max_impl_model_difference_over_bound"] = stats["max_diff_over_bound"]   # accepted up to 2
     ctx.assumptions += [
